@@ -664,13 +664,14 @@ def run_case(case, proj=False):
         tr = h.ltransport if (mc and h.ltransport is not None) else h.by_fam.get(fam)
         if tr is None or tr.closed or hstate[h.idx] != "up":
             return
-        trace.append([now(), "dlv", d, src.idx, h.idx, 1 if mc else 0, items])
+        dlv_ev = [now(), "dlv", d, src.idx, h.idx, 1 if mc else 0, items]
+        trace.append(dlv_ev)
         before = tr.protocol.last_message
         tr.protocol.datagram_received(data, (src.ip, src.port) if fam == 4 else (src.ip6, src.port, 0, SCOPE))
         if tr.protocol.last_message is before:
             # observed, not recomputed: the listener returned before parsing (duplicate-packet guard, oversize).  The link trace keeps
             # the delivery (on a one-listener host an ignored verbatim repeat is a no-op, C16); the projection report needs to know
-            ignored.append([len(trace) - 1, now(), d, h.idx])
+            ignored.append([dlv_ev, now(), d, h.idx])  # (the event itself: positions are fixed once refused registrations are filtered out)
 
     def sendto(h, tr, data, addr=None):
         if tr.closed:
@@ -924,7 +925,8 @@ def run_case(case, proj=False):
     out["unreg_calls"] = unreg_calls
     out["close_unregs"] = close_unregs
     out["refused"] = net.refused
-    out["ignored"] = ignored
+    pos_of = {id(e): k for k, e in enumerate(out["trace"])}
+    out["ignored"] = [[pos_of[id(x[0])], x[1], x[2], x[3]] for x in ignored if id(x[0]) in pos_of]
     out["errors"] = [str(e.get("exception") or e.get("message"))[:200] for e in sim.errors]
     out["ndeliveries"] = net.n
     out["targets"] = net.targets
@@ -1915,6 +1917,18 @@ def check_case(case, res, ctx, tag, lean_jobs, proj=False):
     vio = oracle(case, obs)
     mon = monitors(tr, endT)
     mon_all = mon
+    if case.get("listen") or case.get("stack", "4") == "46":
+        # a host with two receiving sockets (the library's DEFAULT topology) has two listener objects, each with its own duplicate-packet
+        # guard: on one listener an ignored verbatim repeat is a no-op (C16) and "arrived" = "processed"; on two it is not (finding F4).
+        # Third review, point 4: these runs are judged like all others, on the trace of what the hosts PROCESSED -- the deliveries a
+        # listener did not parse (`obs["ignored"]`, observed) are left out for every contract that speaks about processing (K1-K6, K3b,
+        # K5a, K6f, KF); the link's own contract K7 and WF are judged on the full trace.  What F4 explains needs no blanking: the
+        # record the unicast answer re-added IS the last pointer the host processed, so K5 holds, and the end-to-end consequence
+        # carries F4's own signature
+        res.count("runs-on-hosts-with-two-listeners(contracts judged on the processed deliveries)")
+        ign = {x[0] for x in obs.get("ignored", [])}
+        tr_proc = norm_trace(case, dict(obs, trace=[e for k, e in enumerate(obs["trace"]) if k not in ign]))
+        mon = dict(monitors(tr_proc, endT), WF=mon["WF"], K7=mon["K7"])
     conc = conclusion(tr, endT)
     conc_all = conc
     brief = {"case": case, "tag": tag}
@@ -1957,13 +1971,6 @@ def check_case(case, res, ctx, tag, lean_jobs, proj=False):
         if len(k6f) != len(mon["K6f"]) or len(k4) != len(mon["K4"]) or len(k1) != len(mon["K1"]):
             res.count("runs-with-multi-packet-messages(completeness judged per message)")
             mon = dict(mon, K6f=k6f, K4=k4, K1=k1)
-    if case.get("listen") or case.get("stack", "4") == "46":
-        # a host with two receiving sockets has two listener objects, each with its own duplicate-packet guard: whether a delivery is
-        # PROCESSED depends on the socket it arrives on, which the link model (one receive path per host; an ignored verbatim repeat is
-        # a no-op, C16) cannot express.  The contracts are not judged on these runs; the property's own sentence (stage O) is
-        res.count("runs-on-hosts-with-two-listeners(stage O only)")
-        mon = {k: [] for k in mon}
-        conc = []
     # known finding "type spelled in another case": the browser does not report (live = false) what its host's cache holds
     k5 = [w for w in mon["K5"] if not (w[4] is False and w[3][2] < len(case["svcs"])
                                        and obs["browsers"][w[2][2]].get("tcase", 0) != case["svcs"][w[3][2]].get("case", 0) & 1)]
